@@ -17,6 +17,7 @@ mod c09;
 mod c10;
 mod c11;
 mod c12;
+mod c13;
 mod c17;
 mod c18;
 
@@ -116,6 +117,7 @@ fn gen(prop: &str, tier: &str, seed: u64) -> Vec<String> {
         "C10" => c10::gen(tier, &mut r),
         "C11" => c11::gen(tier, &mut r),
         "C12" => c12::gen(tier, &mut r),
+        "C13" => c13::gen(tier, &mut r),
         "C17" => c17::gen(tier, &mut r),
         "C18" => c18::gen(tier, &mut r),
         _ => panic!("unknown property {prop}"),
@@ -130,6 +132,7 @@ fn exec(prop: &str, case: &str) -> Exec {
         "C10" => c10::exec(case),
         "C11" => c11::exec(case),
         "C12" => c12::exec(case),
+        "C13" => c13::exec(case),
         "C17" => c17::exec(case),
         "C18" => c18::exec(case),
         _ => panic!("unknown property {prop}"),
